@@ -5,6 +5,7 @@ import PromqlVerif.Proofs.Den
 import PromqlVerif.Proofs.StartInv
 import PromqlVerif.Proofs.Grid
 import PromqlVerif.Proofs.TheoremP
+import PromqlVerif.Proofs.StreamsProof
 namespace PromqlVerif.C07
 open PromqlVerif Val
 
@@ -155,6 +156,32 @@ theorem range_point_is_not_instant_result_under_a_moving_parameter :
         match v with | .vec v => v.length | .scal _ => 0) = some 1 ∧
     ((eval (movingParamCtx 60000) 60000 movingParamExpr).toOption.map fun v =>
         match v with | .vec v => v.length | .scal _ => 0) = some 2 := by
+  decide
+
+/-! ### the batch-level execution delivers the per-step values on the grid (`Streams.lean`) -/
+
+open Streams in
+/-- **what a step of a range query carries does not depend on the batch size, the number of steps
+or where the step falls inside a batch.** For every plan tree of the engine's pull patterns whose
+leaves share the window, the concatenation of the batches the root delivers in `numSteps` calls of
+`Next` is the step grid of the window, each step carrying the per-step denotation `den p t` - the
+same function of `t` alone that an instant query at `t` (a window of one step) evaluates. Together
+with `cursor_enumerates_grid` (the selectors' own batching) this is the operational half of the
+property; the semantic half (the per-step value does not depend on the window's start) is
+`TheoremP` / `StartInv` above. -/
+theorem batches_concatenate_to_the_grid {α : Type} (d0 : α) (w : Window) (hs : 0 < w.step) (hle : w.start ≤ w.stop)
+    (B : Nat) (hB : 0 < B) (p : Plan α) (hal : Al ⟨w.step, B⟩ w.stop w.start p) :
+    ((run ⟨w.step, B⟩ w.numSteps p).filterMap id).flatten = w.grid.map fun t => (t, den d0 p t) :=
+  run_is_grid d0 w hs hle B hB p hal
+
+open Streams in
+/-- two batch sizes, one plan: the same stream of (timestamp, value) pairs (26 steps; batches of 10
+and of 3; the selector-like leaf uses `numStepsBatch`) -/
+example :
+    let w : Window := ⟨0, 25, 1⟩
+    let mk := fun (B : Nat) => (Plan.zip (fun _ _ a b => a * b) (.leaf (fun t => t) 25 0 (numStepsBatch w B))
+      (.map (fun _ a => a + 1) (.leaf (fun t => 2 * t) 25 0 B)) : Plan Int)
+    ((run ⟨1, 10⟩ 26 (mk 10)).filterMap id).flatten = ((run ⟨1, 3⟩ 26 (mk 3)).filterMap id).flatten := by
   decide
 
 end PromqlVerif.C07
